@@ -21,6 +21,7 @@ enter/exit log of the handlers with the nesting depth per block.
 import EdzedModel.Basic.Val
 import EdzedModel.Counter
 import EdzedModel.Gen.Constants
+import EdzedModel.Gen.TranslatedRepeat
 
 namespace Edzed.Dispatch
 
@@ -119,6 +120,7 @@ inductive BKind where
   | counter    -- edzed.Counter
   | outfunc    -- edzed.OutputFunc: sends on_success / on_error events from inside its handler
   | fsm        -- a table-driven edzed.FSM subclass (states s0, s1, …; scripted entry / exit actions)
+  | repeat     -- edzed.Repeat: forwards the event from inside its handler, re-sends it from its main task
   deriving Repr, Inhabited, DecidableEq
 
 /-- the user function of an OutputFunc -/
@@ -152,6 +154,10 @@ structure Blk where
   onExit : List (List Edge) := []               -- on_exit_STATE events
   onNotrans : List Edge := []
   timed : List (Option (EType × Nat)) := []     -- TIMERS: timed event and duration (0 = zero delay), by state
+  -- repeat: `Repeat(dest=, etype=, count=)`; `_repeated_event = Event(dest, etype)` (no filters)
+  rdest : Nat := 0
+  retype : EType := .name "put"
+  rcount : Option Nat := Option.none
   deriving Repr, Inhabited
 
 structure Circ where
@@ -201,6 +207,8 @@ structure St where
   nextEv : Nat → Option Nat := fun _ => Option.none       -- `FSM._next_event` (its new state)
   timer : Nat → Option EType := fun _ => Option.none      -- `FSM._active_timer` (its timed event)
   timersEnabled : Bool := true                            -- `FSM._timers_enabled` (start() … stop())
+  rcur : Nat → Option (Data × Nat) := fun _ => Option.none -- Repeat: the data last queued for the main task
+                                                          -- and the number of repetitions sent so far
 
 def upd {α : Type} (f : Nat → α) (i : Nat) (v : α) : Nat → α := fun j => if j = i then v else f j
 
@@ -238,6 +246,7 @@ def handlersOf : BKind → HTable
   | .counter => Gen.counterHandlers
   | .outfunc => Gen.outputFuncHandlers
   | .fsm => []          -- an FSM class has no `_event_NAME` methods: everything goes to `_event`
+  | .repeat => []       -- Repeat has no `_event_NAME` methods either: `Repeat._event`
 
 /-- `type(self)._ct_handlers.get(etype)` for a resolved event type -/
 def lookupHandler (k : BKind) : EType → Option (String × List String × List String × Bool)
@@ -393,12 +402,14 @@ def handlerBody (dlv : Dlv) (b : Blk) (d : Nat) (s : St) (name : String) (data :
         andThen (sendEdges dlv d s b.onSuccess [("trigger", .str "success"), ("value", r)])
           (fun s1 => (s1, .ret (resultTuple r)))
   | .fsm => (s, .ret .none)       -- not used: `FSM._event` is `fsmEvent` (see `callHandler`)
+  | .repeat => (s, .ret .none)    -- not used: `Repeat._event` is `repeatEvent` (see `callHandler`)
 
 /-- `init_regular()` -/
 def initRegular (dlv : Dlv) (b : Blk) (d : Nat) (s : St) : St × Res :=
   match b.kind with
   | .probe => runActs dlv b d s b.initScript
   | .outfunc => setOutput dlv b d s (.bool false)
+  | .repeat => setOutput dlv b d s (.int 0)        -- `Repeat.init_regular`: `self.set_output(0)`
   | _ => (s, .ret .none)          -- input, counter, fsm: the default `init_regular` does nothing
 
 /-- `init_from_value(initdef)` if the block is still uninitialised and has an initdef -/
@@ -411,6 +422,7 @@ def initFromValue (dlv : Dlv) (b : Blk) (d : Nat) (s : St) : St × Res :=
     | .probe => (s, .ret .none)                                  -- no `init_from_value`
     | .outfunc => (s, .ret .none)
     | .fsm => (s, .ret .none)
+    | .repeat => (s, .ret .none)                                 -- no `init_from_value`
     | .input => dlv s d (.name "put") [("value", b.initdef)]    -- `self.event('put', value=value)`
     | .counter => setOutput dlv b d s (Counter.reduce (counterCfg b) (counterCfg b).initdef).toVal
   else (s, .ret .none)
@@ -574,6 +586,47 @@ def fsmEvent (dlv : Dlv) (b : Blk) (d : Nat) (stk0 : List Frame) (s : St) (et : 
       -- finally:
       ({ p.1 with fsmActive := upd p.1.fsmActive d false }, p.2)
 
+/-! ### `Repeat._event` and the re-sending main task (edzed/blocklib/sblocks1.py)
+
+The timing of the repetitions is the subject of C18 (EdzedModel/Repeat.lean); here only the call
+structure matters: the received event is forwarded SYNCHRONOUSLY, from inside the block's own handler
+("in order not to conceal a possible forbidden loop"), and only then queued for the main task; the
+repetitions are sent by the main task, outside of any handler. -/
+
+/-- `self._repeated_event = Event(dest, etype)`: no filters -/
+def repeatEdge (b : Blk) : Edge := ⟨b.rdest, b.retype, []⟩
+
+/-- `data['orig_source'] = data.get('source')` -/
+def withOrigSource (data : Data) : Data := data.set "orig_source" ((data.get? "source").getD .none)
+
+/-- `{**data, 'repeat': n}` -/
+def withRepeat (data : Data) (n : Nat) : Data := data.set "repeat" (.int n)
+
+/-- `Repeat._event(etype, data)`: another type is ignored (logged once); else `orig_source`,
+    `set_output(0)`, the synchronous forward with `repeat=0`, and – only when that returned –
+    `self._queue.put_nowait(data)` -/
+def repeatEvent (dlv : Dlv) (b : Blk) (d : Nat) (s : St) (et : EType) (data : Data) : St × Res :=
+  if et != b.retype then (s, .ret .none)
+  else
+    andThen (setOutput dlv b d s (.int 0)) fun s1 =>
+    andThen (sendEdges dlv d s1 [repeatEdge b] (withRepeat (withOrigSource data) 0)) fun s2 =>
+    ({ s2 with rcur := upd s2.rcur d (some (withOrigSource data, 0)) }, .ret .none)
+
+/-- the meaning of the actions of `Repeat._event` as translated from the source
+    (`Gen.TrR.repeatEventActs`, tools/py2lean_repeat.py), in terms of this model; an exception ends
+    the list, `ret` returns None -/
+def runRepActs (dlv : Dlv) (b : Blk) (d : Nat) : St → Data → List Gen.TrR.Act → St × Res
+  | s, _, [] => (s, .ret .none)
+  | s, data, a :: as =>
+    match a with
+    | .warnOnce => runRepActs dlv b d s data as
+    | .setItemFromItem dst src => runRepActs dlv b d s (data.set dst ((data.get? src).getD .none)) as
+    | .setOutput n => andThen (setOutput dlv b d s (.int n)) fun s1 => runRepActs dlv b d s1 data as
+    | .send rep =>
+      andThen (sendEdges dlv d s [repeatEdge b] (withRepeat data rep)) fun s1 => runRepActs dlv b d s1 data as
+    | .enqueue => runRepActs dlv b d { s with rcur := upd s.rcur d (some (data, 0)) } data as
+    | .ret => (s, .ret .none)
+
 /-- the handler's frame: entry, body, exit (normally or by an exception), classification -/
 def inHandler (d : Nat) (stk0 : List Frame) (s3 : St) (data : Data) (body : St → St × Res) : St × Res :=
   let s4 := { s3 with stack := ⟨d, .handler⟩ :: stk0,
@@ -589,6 +642,9 @@ def callHandler (dlv : Dlv) (b : Blk) (d : Nat) (stk0 : List Frame) (s3 : St) (e
   if b.kind = .fsm then
     -- no specialised handlers: `self._event(etype, data)`
     inHandler d stk0 s3 data (fun s4 => fsmEvent dlv b d stk0 s4 et')
+  else if b.kind = .repeat then
+    -- no specialised handlers either: `Repeat._event(etype, data)`
+    inHandler d stk0 s3 data (fun s4 => repeatEvent dlv b d s4 et' data)
   else
   match lookupHandler b.kind et' with
   | Option.none => (s3, .exc .unknownEvent)       -- `self._event()` raises; re-raised, no abort
@@ -648,8 +704,41 @@ def tick (c : Circ) (s : St) (d : Nat) : Option (St × Res) :=
     some (andThen (deliver c c.fuel { s with timer := upd s.timer d Option.none } d ev [])
       (fun s1 => (s1, .ret .none)))
 
-/-- the simulation task has ended: `FSM.stop()` for every block (timers cancelled and disabled) -/
-def stopAll (s : St) : St := { s with timer := fun _ => Option.none, timersEnabled := false }
+/-- `self._count is None or repeat < self._count` -/
+def repeatGoesOn (b : Blk) (rep : Nat) : Bool :=
+  match b.rcount with
+  | Option.none => true
+  | some n => rep < n
+
+/-- what the main task does at a timeout (`Gen.TrR.maintaskIter`, `.timeout true`): `repeat += 1`,
+    `self.set_output(repeat)`, `self._repeated_event.send(self, **{**data, 'repeat': repeat})`
+    – called from the task, i.e. from OUTSIDE of any handler -/
+def resendBody (dlv : Dlv) (b : Blk) (d : Nat) (s : St) (data : Data) (rep : Nat) : St × Res :=
+  andThen (setOutput dlv b d { s with rcur := upd s.rcur d (some (data, rep)) } (.int rep)) fun s1 =>
+  sendEdges dlv d s1 [repeatEdge b] (withRepeat data rep)
+
+/-- an exception in the main task ends it; `AddonAsync._task_monitor` passes the exception itself
+    to `Circuit.abort` (the first error wins: an error inside a handler has aborted already) -/
+def taskOutcome (d : Nat) (p : St × Res) : St × Res :=
+  match p.2 with
+  | .exc .outOfFuel => p
+  | .exc x => ({ p.1.abort x with rcur := upd p.1.rcur d Option.none }, .exc x)
+  | .ret _ => (p.1, .ret .none)
+
+/-- one repetition by the main task of Repeat block `d` (the instant is the implementation's: C18);
+    `none`: the block is not repeating anything (nothing queued, or `count` exhausted) -/
+def resend (c : Circ) (s : St) (d : Nat) : Option (St × Res) :=
+  match c.blocks[d]?, s.rcur d with
+  | some b, some (data, rep) =>
+    if b.kind = .repeat && repeatGoesOn b rep then
+      some (taskOutcome d (resendBody (deliver c c.fuel) b d s data (rep + 1)))
+    else Option.none
+  | _, _ => Option.none
+
+/-- the simulation task has ended: `FSM.stop()` for every block (timers cancelled and disabled),
+    `AddonMainTask.stop_async` (the main tasks are cancelled: nothing is repeated any more) -/
+def stopAll (s : St) : St :=
+  { s with timer := fun _ => Option.none, timersEnabled := false, rcur := fun _ => Option.none }
 
 /-- the loop of `_init_sblocks_sync_2` over the blocks `ds` -/
 def initLoop (c : Circ) : St → List Nat → St × Res
